@@ -209,7 +209,8 @@ func c05Run(c *evid.Ctx, geo c05Geo, seq []string, rng *rand.Rand, real bool, se
 				res = drv.Apply(st.w, op)
 			} else {
 				res = drv.ApplyNoWait(st.w, op)
-				res.Quiesced = true
+				sw := st.w
+				res.Quiesced = gate.Settle(func() (int64, int64, int64) { return hooks.Rotations(sw) }, drv.Watchdog)
 				if gate.Holding() && rng.Intn(2) == 0 {
 					// sometimes let the rotation finish now, sometimes leave it pending for the next call
 					gate.Release()
